@@ -172,16 +172,18 @@ class _P(object):
 def find_tagged(text, tag):
     """Yield every value of the form <<"tag", ...>> found in TLC output (bracket matching,
     robust to line wrapping)."""
-    needle = '<<"%s"' % tag
+    import re
+    pat = re.compile(r'<<\s*"%s"' % re.escape(tag))
     pos = 0
     while True:
-        k = text.find(needle, pos)
-        if k < 0:
+        m = pat.search(text, pos)
+        if m is None:
             return
+        k = m.start()
         try:
             v, end = parse_prefix(text, k)
         except (ParseError, IndexError):
-            pos = k + len(needle)
+            pos = m.end()
             continue
         yield v
         pos = end
